@@ -24,7 +24,7 @@ struct month {
     constexpr explicit month(unsigned m) noexcept
         : _count{static_cast<unsigned char>(m)}
     {
-        TETL_PRECONDITION(m < etl::numeric_limits<unsigned char>::max());
+        TETL_PRECONDITION(m <= etl::numeric_limits<unsigned char>::max());
     }
 
     [[nodiscard]] constexpr auto ok() const noexcept -> bool { return (_count > 0U) and (_count <= 12U); }
